@@ -12,7 +12,7 @@ inductive K where
   | plus | minus | times | div | up | lp | rp | comma | semi | colon | eq | lt | gt | le | ge | ne
   | and_ | or_ | xor_ | mod_ | not_
   | sqr | sqrt | sin | cos | tan | arctan | log | log10 | exp | abs | sgn | ceil | floor
-  | str_ | val | chr_ | asc | len | mid_ | instr | ltrim | rtrim | trim | pad | eol_ | eol_notab_ | no_newline_
+  | str_ | str_f_ | str_e_ | val | chr_ | asc | len | mid_ | instr | ltrim | rtrim | trim | pad | eol_ | eol_notab_ | no_newline_
   | get | get_ | put | put_
   | let_ | goto | if_ | end_ | stop | for_ | next | while_ | wend | gosub | return_ | read | data | restore
   | on | dim | erase | then_ | else_ | to | step | print | punch | save | bye
@@ -27,6 +27,7 @@ def kOfName : String → K
   | "toksqr" => .sqr | "toksqrt" => .sqrt | "toksin" => .sin | "tokcos" => .cos | "toktan" => .tan
   | "tokarctan" => .arctan | "toklog" => .log | "toklog10" => .log10 | "tokexp" => .exp | "tokabs" => .abs
   | "toksgn" => .sgn | "tokceil" => .ceil | "tokfloor" => .floor
+  | "tokstr_f_" => .str_f_ | "tokstr_e_" => .str_e_
   | "tokstr_" => .str_ | "tokval" => .val | "tokchr_" => .chr_ | "tokasc" => .asc | "toklen" => .len
   | "tokmid_" => .mid_ | "tokinstr" => .instr | "tokltrim" => .ltrim | "tokrtrim" => .rtrim | "toktrim" => .trim
   | "tokpad" => .pad | "tokpad_" => .pad | "tokeol_" => .eol_ | "tokeol_notab_" => .eol_notab_
@@ -78,35 +79,59 @@ def lookupKw (name : String) : Option String :=
 
 def digitsVal (ds : List Char) : Nat := ds.foldl (fun a c => a * 10 + (c.toNat - 48)) 0
 
-/-- `strtod` on a text that starts with a digit or '.': `some (m, e10, rest)` (value `m·10^e10`) or `none` when no
-conversion is possible (a lone '.'). Hexadecimal forms are outside the model (`hex = true`). -/
-def strtodDec (cs : List Char) : Option (Nat × Int × List Char) × Bool :=
-  let ip := cs.takeWhile isDigitC
-  let r1 := cs.dropWhile isDigitC
-  let hex := match cs with
-    | '0' :: x :: _ => x == 'x' || x == 'X'
-    | _ => false
-  let (fp, r2) := match r1 with
-    | '.' :: r => (r.takeWhile isDigitC, r.dropWhile isDigitC)
-    | _ => ([], r1)
-  if ip.isEmpty && fp.isEmpty then (none, hex) else
-  let m := digitsVal (ip ++ fp)
-  let e0 : Int := -(Int.ofNat fp.length)
-  -- exponent part only when at least one digit follows
-  let (ex, r3) : Int × List Char := match r2 with
-    | c :: r =>
-      if c == 'e' || c == 'E' then
-        let (sg, r') : Bool × List Char := match r with
-          | '+' :: t => (false, t)
-          | '-' :: t => (true, t)
-          | _ => (false, r)
-        let ed := r'.takeWhile isDigitC
-        if ed.isEmpty then (0, r2) else
-          let v : Int := Int.ofNat (digitsVal ed)
-          ((if sg then -v else v), r'.dropWhile isDigitC)
-      else (0, r2)
-    | [] => (0, r2)
-  (some (m, e0 + ex, r3), hex)
+def isHexC (c : Char) : Bool := isDigitC c || ('a' ≤ c && c ≤ 'f') || ('A' ≤ c && c ≤ 'F')
+def hexDigitVal (c : Char) : Nat :=
+  if isDigitC c then c.toNat - 48 else if 'a' ≤ c && c ≤ 'f' then c.toNat - 87 else c.toNat - 55
+def hexVal (ds : List Char) : Nat := ds.foldl (fun a c => a * 16 + hexDigitVal c) 0
+
+/-- what `strtod` recognised: `m·10^e` or (hexadecimal form) `m·2^e` -/
+inductive NumLit where
+  | dec (m : Nat) (e : Int)
+  | bin (m : Nat) (e : Int)
+
+/-- optional exponent part `[eE|pP][+-]digits`, taken only when at least one digit follows -/
+def expPart (mark : Char → Bool) (r2 : List Char) : Int × List Char := match r2 with
+  | c :: r =>
+    if mark c then
+      let (sg, r') : Bool × List Char := match r with
+        | '+' :: t => (false, t)
+        | '-' :: t => (true, t)
+        | _ => (false, r)
+      let ed := r'.takeWhile isDigitC
+      if ed.isEmpty then (0, r2) else
+        let v : Int := Int.ofNat (digitsVal ed)
+        ((if sg then -v else v), r'.dropWhile isDigitC)
+    else (0, r2)
+  | [] => (0, r2)
+
+/-- glibc `strtod` on a text that starts with a digit or '.': the literal and the rest, or `none` when no
+conversion is possible (a lone '.'). `0x…` with at least one hexadecimal digit is a hexadecimal floating literal
+(`0x1A`, `0x.8`, `0x1.8p3`); without one only the `0` is taken. -/
+def strtodC (cs : List Char) : Option (NumLit × List Char) :=
+  let hexForm : Option (NumLit × List Char) := match cs with
+    | '0' :: x :: r =>
+      if x == 'x' || x == 'X' then
+        let ip := r.takeWhile isHexC
+        let r1 := r.dropWhile isHexC
+        let (fp, r2) := match r1 with
+          | '.' :: t => (t.takeWhile isHexC, t.dropWhile isHexC)
+          | _ => ([], r1)
+        if ip.isEmpty && fp.isEmpty then none else
+          let (ex, r3) := expPart (fun c => c == 'p' || c == 'P') r2
+          some (.bin (hexVal (ip ++ fp)) (ex - 4 * Int.ofNat fp.length), r3)
+      else none
+    | _ => none
+  match hexForm with
+  | some h => some h
+  | none =>
+    let ip := cs.takeWhile isDigitC
+    let r1 := cs.dropWhile isDigitC
+    let (fp, r2) := match r1 with
+      | '.' :: r => (r.takeWhile isDigitC, r.dropWhile isDigitC)
+      | _ => ([], r1)
+    if ip.isEmpty && fp.isEmpty then none else
+    let (ex, r3) := expPart (fun c => c == 'e' || c == 'E') r2
+    some (.dec (digitsVal (ip ++ fp)) (ex - Int.ofNat fp.length), r3)
 
 /-- state of the scanner loop: accumulated tokens, quote balance, parenthesis balance -/
 structure LexSt (α : Type) where
@@ -167,9 +192,10 @@ def lexLoop {α : Type} [BNum α] : Nat → List Char → LexSt α → LexSt α
         | some tn => push (.k (kOfName tn)) after
         | none => push (.var name) after
       else if isDigitC ch || ch == '.' then
-        (match strtodDec rest with
-         | (some (m, e, r'), hex) => push (.num (BNum.ofDec m e)) r' { st with hex := st.hex || hex }
-         | (none, _) => push (.snerr ch) r)
+        (match strtodC rest with
+         | some (.dec m e, r') => push (.num (BNum.ofDec m e)) r'
+         | some (.bin m e, r') => push (.num (BNum.ofBin m e)) r'
+         | none => push (.snerr ch) r)
       else push (.snerr ch) r
 
 /-- `PBasic::parse`: tokens of one line, or the `error_msg(…, STOP)` of the final balance checks -/
@@ -189,6 +215,15 @@ def trimC (cs : List Char) : List Char :=
 def splitLineNumber (raw : List Char) : Nat × List Char :=
   let cs := trimC (raw.map fun c => if c == '\t' || c == '\r' then ' ' else c)
   (digitsVal (cs.takeWhile isDigitC), cs.dropWhile isDigitC)
+
+/-- `(LONG_MAX - 9) / 10`: a line number whose accumulation passes this is "Line number is too large" (f29ef764) -/
+def lineNumberLimit : Nat := 922337203685477579
+
+/-- does the digit-by-digit accumulation of `parseinput` hit the limit test? -/
+def lineNumberTooLarge (raw : List Char) : Bool :=
+  let cs := trimC (raw.map fun c => if c == '\t' || c == '\r' then ' ' else c)
+  let ds := cs.takeWhile isDigitC
+  (ds.foldl (fun (acc : Nat × Bool) c => (acc.1 * 10 + (c.toNat - 48), acc.2 || acc.1 > lineNumberLimit)) (0, false)).2
 
 /-- `sget_logical_line`: split the command text at ';' and '\n' -/
 def logicalLines (cs : List Char) : List (List Char) :=
